@@ -262,6 +262,10 @@ class Spec(MQSpec):
                           'out': [{'name': 'main', 'img': {'h': 4, 'w': 6, 'fmt': 'BGR', 'mode': 'raw'}}]}
         nodes[SUBJECT] = {'subject': True, 'cls': cls, 'mode': mode, 'config': cfg, 'renorm': renorm, 'inject': inject,
                           'gear': {'n_frames': 3 + g(3), 'fps': ch.pick('gen', [25.0, None, 10.0]), 'period_ms': 40}}
+        if lifecycle.startswith('process') and ch.chance('gen', 1, 3):
+            # LOOP_EXC=false: the exception is swallowed by the main loop and only logged; the filter keeps running
+            nodes[SUBJECT]['loop_exc'] = False
+            lifecycle += '_swallowed'
         if 'd' in idx:
             nodes['d'] = {'sources': [{'from': SUBJECT}], 'has_output': False, 'lineage': False}
         return {
